@@ -11,6 +11,7 @@ PROPERTY_MODULES = {
     "C19": ["contracts.c19"],
     "C16": ["contracts.c16"],
     "C17": ["contracts.c17"],
+    "C18": ["contracts.c05", "contracts.c06", "contracts.c18"],
     "C03": ["contracts.c03"],
     "C04": ["contracts.c04"],
     "C05": ["contracts.c05"],
